@@ -877,6 +877,106 @@ fn check_tree_text(ty: &str, text: &str) -> Result<bool, Fail> {
 // Run
 // ---------------------------------------------------------------------------------------------
 
+// ---------------------------------------------------------------------------------------------
+// Scanners are not (de)serializable today. If a later version derives the serde traits for them
+// ("persist scanner state"), a deserialized scanner is a value obtained from untrusted input and
+// must behave like one that new/feed/reset could have produced: its own serialization round-trips,
+// and whatever mutated serialization is accepted never panics on feed and emits only valid messages.
+// ---------------------------------------------------------------------------------------------
+
+trait PScanSerdeY<T> {
+    fn scanner_serde(&self, states: &[T], exercise: &dyn Fn(&T) -> Result<(), Fail>, name: &str) -> Option<CheckResult>;
+}
+impl<T: Serialize + DeserializeOwned + PartialEq + std::fmt::Debug> PScanSerdeY<T> for crate::impls::Probe<T> {
+    fn scanner_serde(&self, states: &[T], exercise: &dyn Fn(&T) -> Result<(), Fail>, name: &str) -> Option<CheckResult> {
+        let run = || -> CheckResult {
+            let replacements: Vec<Value> = [0i64, 5, 31, 32, 40, 63, 64, 127, 128, 255, 16383, 16384, -1].iter().map(|n| json!(n)).chain([json!(true), json!(false), json!(null)]).collect();
+            let mut accepted = 0u64;
+            for x in states {
+                let base = serde_json::to_value(x).map_err(|e| Fail { sig: format!("{}/serialize_failed", name), detail: e.to_string() })?;
+                let back: Result<T, _> = serde_json::from_value(base.clone());
+                ensure!(back.as_ref().ok() == Some(x), format!("{}/roundtrip_value", name), "{:?} -> {} -> {:?}", x, base, back.map_err(|e| e.to_string()));
+                let mut paths = Vec::new();
+                leaf_paths(&base, Vec::new(), &mut paths);
+                for p in &paths {
+                    for r in &replacements {
+                        let mut v = base.clone();
+                        set_path(&mut v, p, Some(r.clone()));
+                        if let Ok(y) = serde_json::from_value::<T>(v) {
+                            accepted += 1;
+                            exercise(&y).map_err(|f| Fail { sig: format!("{}/deserialized_state/{}", name, f.sig), detail: format!("own serialization {} with {} := {} was accepted; then: {}", base, p.join("."), r, f.detail) })?;
+                        }
+                    }
+                }
+            }
+            Ok(accepted > 0)
+        };
+        Some(run())
+    }
+}
+trait PScanSerdeN<T> {
+    fn scanner_serde(&self, _states: &[T], _exercise: &dyn Fn(&T) -> Result<(), Fail>, _name: &str) -> Option<CheckResult> {
+        None
+    }
+}
+impl<T> PScanSerdeN<T> for &crate::impls::Probe<T> {}
+
+fn scanner_serde_case(which: u64) -> CheckResult {
+    use helgoboss_midi::{ControlChange14BitMessageScanner, ParameterNumberMessageScanner};
+    let cc = |ch: u8, cn: u8, v: u8| RawShortMessage::control_change(h_ch(ch), h_cn(cn), h_u7(v));
+    match which {
+        0 => {
+            let mut states = vec![ControlChange14BitMessageScanner::new()];
+            let mut s = ControlChange14BitMessageScanner::new();
+            s.feed(&cc(0, 7, 100));
+            s.feed(&cc(15, 31, 1));
+            states.push(s);
+            let exercise = |y: &ControlChange14BitMessageScanner| -> Result<(), Fail> {
+                for ch in 0..16u8 {
+                    for cn in 0..128u8 {
+                        for v in [0u8, 127] {
+                            let mut t = *y;
+                            let m = cc(ch, cn, v);
+                            match guarded(|| t.feed(&m)) {
+                                Err(p) => return fail("feed_panics", format!("feed(CC ch{} cn{} v{}) panicked: {}", ch, cn, v, p)),
+                                Ok(Some(out)) => out.valid()?,
+                                Ok(None) => {}
+                            }
+                        }
+                    }
+                }
+                Ok(())
+            };
+            (&crate::impls::probe::<ControlChange14BitMessageScanner>()).scanner_serde(&states, &exercise, "ControlChange14BitMessageScanner").unwrap_or(Ok(false))
+        }
+        _ => {
+            let mut states = vec![ParameterNumberMessageScanner::new()];
+            let mut s = ParameterNumberMessageScanner::new();
+            for (ch, cn, v) in [(0u8, 99u8, 3u8), (0, 98, 4), (0, 6, 5), (15, 101, 0), (15, 100, 1)] {
+                s.feed(&cc(ch, cn, v));
+            }
+            states.push(s);
+            let exercise = |y: &ParameterNumberMessageScanner| -> Result<(), Fail> {
+                for ch in 0..16u8 {
+                    for cn in [6u8, 38, 96, 97, 98, 99, 100, 101, 0, 127] {
+                        for v in [0u8, 127] {
+                            let mut t = *y;
+                            let m = cc(ch, cn, v);
+                            match guarded(|| t.feed(&m)) {
+                                Err(p) => return fail("feed_panics", format!("feed(CC ch{} cn{} v{}) panicked: {}", ch, cn, v, p)),
+                                Ok(Some(out)) => out.valid()?,
+                                Ok(None) => {}
+                            }
+                        }
+                    }
+                }
+                Ok(())
+            };
+            (&crate::impls::probe::<ParameterNumberMessageScanner>()).scanner_serde(&states, &exercise, "ParameterNumberMessageScanner").unwrap_or(Ok(false))
+        }
+    }
+}
+
 pub fn run_c19(ctx: &Ctx) -> Report {
     let mut subs = Vec::new();
     run_ints_for::<U4>(ctx, &mut subs);
@@ -1126,6 +1226,15 @@ pub fn run_c19(ctx: &Ctx) -> Report {
         sub.floor("rejected", 300);
         subs.push(sub);
     }
+    {
+        let mut sub = Sub::new("probed_scanner_state", "the two non-polling scanners, if they ever become (de)serializable (they are not today): own serializations round-trip; every single-leaf mutation of them that is accepted must yield a scanner that never panics on any Control Change and emits only valid messages", "non-trivial = the impls exist and a mutated state was accepted", true);
+        sub.supplementary = true;
+        for which in 0..2u64 {
+            sub.eval(which as u128, || json!({"kind": "scanner_state", "scanner": which}), || scanner_serde_case(which));
+        }
+        sub.samples.push(json!({"kind": "scanner_state", "note": "nothing to check unless the impls exist"}));
+        subs.push(sub);
+    }
     Report {
         subs,
         rule: "inputs are fed through serde's typed primitive value deserializers, the generic self-describing serde_json::Value deserializer and JSON text; oracle: Err, or Ok(v) where v satisfies the validity predicate of its type (equal to the value the checked public constructors build from its own accessors; no accessor/encoder panics or yields an out-of-range byte); valid values must round-trip".into(),
@@ -1161,6 +1270,7 @@ pub fn replay_c19(_sub: &str, case: &Value) -> Option<CheckResult> {
             macro_rules! t { ($($n:ident),*) => { match case["type"].as_str()? { $( stringify!($n) => Some(int_json::<$n>(v)), )* _ => None } }; }
             t!(U4, U7, U14, Channel, KeyNumber, ControllerNumber)
         }
+        "scanner_state" => json_u64(&case["scanner"]).map(scanner_serde_case),
         "value" => Some(check_tree_value(case["type"].as_str()?, &case["input"])),
         "text" => Some(check_tree_text(case["type"].as_str()?, case["text"].as_str()?)),
         "raw" => Some(raw_case(case["fields"].as_array()?)),
